@@ -76,12 +76,12 @@ Proof.
   intros [= <-] Hi. rewrite !list_lookup_fmap, Hi. simpl. eauto.
 Qed.
 
-(** a transaction whose names cannot be resolved fails at its first result
-    and changes nothing *)
+(** a transaction whose names cannot be resolved fails and changes nothing *)
 Theorem unresolved_names_fail S d l :
   (forall ops, expand l <> Ok ops) -> snd (transact_named S d l) = None.
 Proof.
-  intros H. unfold transact_named. destruct (expand l) as [ops| |]; [exfalso; eapply H; reflexivity| |]; reflexivity.
+  intros H. unfold transact_named. destruct (expand l) as [ops| |]; [exfalso; eapply H; reflexivity| |];
+    destruct (name_map_lenient ∅ 0 l) as [σ k]; destruct (exec_ops _ _ _ _) as [[rs w] ok]; destruct ok; reflexivity.
 Qed.
 
 Lemma create_ids_pointwise (ms : list (sym * bool * bool)) i m :
